@@ -71,28 +71,32 @@ C14Fix ==
         /\ hol' = { r \in hol : ~inYears(r) } \cup obs
         /\ UNCHANGED rest
 
-\* H: the records of the years around the frame (passed as an argument so that it is built once)
-WorkRow(H, x) ==
+\* HN: the records of the year before .. after the frame's (short walks), HF: three years either side (the long ones)
+WorkRow(HN, HF, x) ==
   IF x.p # 0 THEN Chk("C14.workday.panic", x.d, FALSE)
   ELSE LET j == DayToJdn(x.d)
+           H == HN
        IN SumSeq(x.nx, LAMBDA q :
-            LET b == NextWorkday(H, j, q[1])
+            LET HQ == IF q[1] > 100 \/ q[1] < -100 THEN HF ELSE HN
+                b == NextWorkday(HQ, j, q[1])
             IN Chk("C14.workday.next", << x.d, q[1], q[2] >>, q[2] = JdnToDay(b))
                \* the defining law, stated on the observed landing day
                + (LET o == DayToJdn(q[2])
                   IN Chk("C14.workday.law", << x.d, q[1], q[2] >>,
-                         /\ IsWorkday(H, o)
-                         /\ (q[1] > 0 => (o > j /\ o - j < 60 /\ WorkdaysBetween(H, j, o) = q[1]))
-                         /\ (q[1] < 0 => (o < j /\ j - o < 60 /\ WorkdaysBetween(H, o - 1, j - 1) = -q[1])))))
+                         /\ IsWorkday(HQ, o)
+                         \* (the distance bound only keeps the counted range finite when an observation is absurd)
+                         /\ (q[1] > 0 => (o > j /\ o - j < 60 + 2 * q[1] /\ WorkdaysBetween(HQ, j, o) = q[1]))
+                         /\ (q[1] < 0 => (o < j /\ j - o < 60 - 2 * q[1] /\ WorkdaysBetween(HQ, o - 1, j - 1) = -q[1])))))
           + (IF Has(x, "z") THEN Chk("C14.workday.zero", x.d, x.z = << x.d >>) ELSE 0)
           + (IF Has(x, "sal")
                THEN Chk("C14.salaryRate", << x.d, x.sal >>, x.sal[1] = SalaryRate(H, x.d, x.sal[2], x.sal[3], x.sal[4] = 1))
                ELSE 0)
-WorkRows(H, rows) == SumSeq(rows, LAMBDA x : WorkRow(H, x))
+WorkRows(HN, HF, rows) == SumSeq(rows, LAMBDA x : WorkRow(HN, HF, x))
 C14Work ==
   /\ IsEv("C14Work")
   /\ LET e == Trace[l]
-     IN Consume(WorkRows({ r \in hol : (RDay(r) \div 10000) \in (e.y - 1)..(e.y + 1) }, e.rows))
+     IN Consume(WorkRows({ r \in hol : (RDay(r) \div 10000) \in (e.y - 1)..(e.y + 1) },
+                         { r \in hol : (RDay(r) \div 10000) \in (e.y - 3)..(e.y + 3) }, e.rows))
   /\ UNCHANGED << hol, rest >>
 
 TraceInit == KitInit /\ hol = {} /\ rest = ""
